@@ -96,8 +96,7 @@ CHECKS["C28"] = dict(
     gen=dict(
         quick=[dict(mode="edges", spec=_GEN, cfg="RouteDiscoveryGenEdges.cfg", depth=30, max=60, name="edges-small4"),
                dict(mode="sim", spec=_GEN, cfg="RouteDiscoveryGenSim.cfg", depth=40, num=40, max=50, dedup=True, name="walks-iso4"),
-               dict(mode="sim", spec=_GEN, cfg="RouteDiscoveryGenSimT2.cfg", depth=40, num=15, max=20, dedup=True, salt=4, name="walks-ttl2"),
-               dict(mode="sim", spec=_GEN, cfg="RouteDiscoveryGenSim5.cfg", depth=50, num=15, max=20, dedup=True, salt=3, name="walks-n5")],
+               dict(mode="sim", spec=_GEN, cfg="RouteDiscoveryGenSimT2.cfg", depth=40, num=15, max=20, dedup=True, salt=4, name="walks-ttl2")],   # 5-node walks: thorough tier
         thorough=[dict(mode="edges", spec=_GEN, cfg="RouteDiscoveryGenEdges.cfg", depth=30, name="edges-small4"),
                   dict(mode="edges", spec=_GEN, cfg="RouteDiscoveryGenEdgesA1.cfg", depth=30, max=500, name="edges-iso4-a1", timeout=1200),
                   dict(mode="sim", spec=_GEN, cfg="RouteDiscoveryGenSim.cfg", depth=40, num=300, max=350, dedup=True, name="walks-iso4"),
@@ -177,7 +176,7 @@ CHECKS["C38"] = dict(
         quick=[dict(mode="edges", spec=_MG, cfg="MulticastGenMemberEdges1.cfg", depth=4, max=350, name="member-edges-1group"),
                dict(mode="sim", spec=_MG, cfg="MulticastGenMemberSim.cfg", depth=12, num=8, max=60, name="member-walks"),
                dict(mode="sim", spec=_MG, cfg="MulticastGenFill.cfg", depth=8, num=4, max=25, salt=1, name="member-fill"),
-               dict(mode="edges", spec=_MG, cfg="MulticastGenFloodEdges.cfg", depth=20, max=80, name="flood-edges"),
+               dict(mode="edges", spec=_MG, cfg="MulticastGenFloodEdges.cfg", depth=7, max=80, name="flood-edges"),
                dict(mode="sim", spec=_MG, cfg="MulticastGenFloodSim.cfg", depth=40, num=60, max=60, dedup=True, salt=2, name="flood-walks")],
         thorough=[dict(mode="edges", spec=_MG, cfg="MulticastGenMemberEdges1.cfg", depth=8, name="member-edges-1group", timeout=1200),
                   dict(mode="edges", spec=_MG, cfg="MulticastGenMemberEdges.cfg", depth=3, max=500, name="member-edges", timeout=1200),
